@@ -388,7 +388,7 @@ fn set_mode_cursor<'a, T: IteratingInstrumenter<'a>>(it: &mut T, m: Mode) {
     }
 }
 
-fn set_mode_at<'a, T: Instrumenter<'a>>(it: &mut T, m: Mode, loc: Location) {
+pub fn set_mode_at<'a, T: Instrumenter<'a>>(it: &mut T, m: Mode, loc: Location) {
     match m {
         Mode::Before => {
             it.before_at(loc);
